@@ -210,4 +210,66 @@ end
 def Renders (t : Ast) (s : Str) : Prop :=
   ∃ (e : C) (w : Str), e.WF ∧ AllWs w ∧ e.ast = t ∧ s = e.render ++ w
 
+/-! ### `WF` is decidable (the driver checks the layouts the harness generates against this very predicate) -/
+
+def decAll (p : Char → Bool) (P : Str → Prop) (hnil : P []) (hcons : ∀ c s, P (c :: s) ↔ (p c = true ∧ P s)) :
+    (s : Str) → Decidable (P s)
+  | [] => isTrue hnil
+  | c :: s =>
+    match decAll p P hnil hcons s with
+    | isTrue h2 => if h1 : p c = true then isTrue ((hcons c s).2 ⟨h1, h2⟩) else isFalse (fun h => h1 ((hcons c s).1 h).1)
+    | isFalse h2 => isFalse (fun h => h2 ((hcons c s).1 h).2)
+
+instance (s : Str) : Decidable (AllWs s) := decAll isWs AllWs trivial (fun _ _ => Iff.rfl) s
+instance (s : Str) : Decidable (AllWordCh s) := decAll isWordCh AllWordCh trivial (fun _ _ => Iff.rfl) s
+instance (s : Str) : Decidable (AllDigit s) := decAll isDigit AllDigit trivial (fun _ _ => Iff.rfl) s
+
+instance (q : Char) : (i : QItem) → Decidable (i.WF q)
+  | .raw c => inferInstanceAs (Decidable (c ≠ q ∧ c ≠ '\\' ∧ c ≠ '\n' ∧ c ≠ '\r'))
+  | .esc c => inferInstanceAs (Decidable ((c = 't' ∨ c = 'n' ∨ c = 'f' ∨ c = 'r') ∨ (isAlnum c = false ∧ c ≠ '\n')))
+
+def decItems (q : Char) : (l : List QItem) → Decidable (ItemsWF q l)
+  | [] => isTrue trivial
+  | i :: l =>
+    match decItems q l with
+    | isTrue h2 => if h1 : i.WF q then isTrue ⟨h1, h2⟩ else isFalse (fun h => h1 h.1)
+    | isFalse h2 => isFalse (fun h => h2 h.2)
+instance (q : Char) (l : List QItem) : Decidable (ItemsWF q l) := decItems q l
+
+instance : (s : Str) → Decidable (notOpStart s)
+  | [] => isTrue trivial
+  | c :: _ => inferInstanceAs (Decidable (c ≠ '!' ∧ c ≠ '&' ∧ c ≠ '|'))
+
+instance : (a : Arg) → Decidable a.WF
+  | .word a => inferInstanceAs (Decidable (a ≠ [] ∧ AllWordCh a))
+  | .quoted q items => inferInstanceAs (Decidable ((q = '"' ∨ q = '\'') ∧ ItemsWF q items))
+
+instance : (a : AtomC) → Decidable a.WF
+  | .unary c => inferInstanceAs (Decidable (c ∈ Gen.unaryCodes))
+  | .rex c w a => inferInstanceAs (Decidable (c ∈ Gen.rexCodes ∧ w ≠ [] ∧ AllWs w ∧ a.WF))
+  | .bare a => inferInstanceAs (Decidable (a.WF ∧ (a.isWord = true → notOpStart a.render)))
+  | .int c w d => inferInstanceAs (Decidable (c ∈ Gen.intCodes ∧ w ≠ [] ∧ AllWs w ∧ d ≠ [] ∧ AllDigit d))
+
+mutual
+def C.decWF : (e : C) → Decidable e.WF
+  | .atom w a => inferInstanceAs (Decidable (AllWs w ∧ a.WF))
+  | .group w1 e w2 =>
+    have := C.decWF e
+    inferInstanceAs (Decidable (AllWs w1 ∧ AllWs w2 ∧ e.WF))
+  | .not w e =>
+    have := C.decWF e
+    inferInstanceAs (Decidable (AllWs w ∧ e.level ≤ 1 ∧ e.WF))
+  | .chain k f r =>
+    have := C.decWF f
+    have := CL.decWF r k f.endsWord
+    inferInstanceAs (Decidable (f.level < k.level ∧ f.WF ∧ r.isNil = false ∧ r.WF k f.endsWord))
+def CL.decWF : (l : CL) → (k : Kind) → (prev : Bool) → Decidable (l.WF k prev)
+  | .nil, _, _ => isTrue trivial
+  | .cons w e r, k, prev =>
+    have := C.decWF e
+    have := CL.decWF r k e.endsWord
+    inferInstanceAs (Decidable (AllWs w ∧ ((prev = true ∨ k = Kind.juxt) → w ≠ []) ∧ e.level < k.level ∧ e.WF ∧ r.WF k e.endsWord))
+end
+instance (e : C) : Decidable e.WF := C.decWF e
+
 end MitmVerif.C42
